@@ -13,7 +13,7 @@ From AL Require C07.Check.
 From AL Require Import Base.CaseLib C07.Model C07.Spec C07.Proofs_Ring C05.Model C05.Spec C05.Lib C05.Proofs_Run C05.Proofs_Ops
   C05.Proofs_Signal C05.Proofs_Signal2 C05.Proofs_List C05.Proofs_Eq C05.Proofs_Domain C05.Proofs_Frac
   C05.Proofs_Field C05.Proofs_Pow C05.Proofs_Subst C05.Proofs_Sem C05.Proofs_Laws C05.Proofs_Norm
-  C05.Proofs_Lin C05.Proofs_Check C05.Proofs_Hom C05.Proofs_SemFull.
+  C05.Proofs_Lin C05.Proofs_Check C05.Proofs_Hom C05.Proofs_SemFull C05.Proofs_Signal3.
 Import ListNotations.
 Open Scope Qc_scope.
 
@@ -62,10 +62,11 @@ Theorem C05_run_respects_equiv : forall f g x, causal_ok f -> causal_ok g -> feq
 Proof. exact run_respects_equiv. Qed.
 Print Assumptions C05_run_respects_equiv.
 
-(* ((f / g) * g)(x) = f(x)   (g without a pure delay, so that f / g is causal) *)
-Theorem C05_run_div_cancel : forall f g q h x, causal_ok f -> causal_ok g -> coefn (fnum g) 0 <> 0 ->
+(* ((f / g) * g)(x) = f(x) for every causal g <> 0 (also when g starts with a delay: f / g is then an advance
+   and cannot run, but the product is causal again) *)
+Theorem C05_run_div_cancel : forall f g q h x, causal_ok f -> causal_ok g -> fnum g <> [] ->
   fdiv f g = Ok q -> fmul q g = Ok h -> frun h x = frun f x.
-Proof. exact run_div_cancel. Qed.
+Proof. exact run_div_cancel_gen. Qed.
 Print Assumptions C05_run_div_cancel.
 
 (* (f ** n)(x) is f applied n times *)
